@@ -930,7 +930,7 @@ def check(run: common.Run):
     common.log(f"[c13] api generated {round(_t.time() - t0, 1)}s ({len(api_obs)} cases)")
 
     # ---- 7. the command-line finder: real subprocess, its printed lines vs the model's rendering
-    cli_problems = []
+    cli_problems, cli_fail = [], []
     cli_srcs = api_srcs[:60] + api_srcs[-(20 if quick else 200):]
     cli_cases = []
     for pat in ["{{f}}({{x}})", "{{x}} = {{y}}", "{{a}} + {{b}}"]:
@@ -946,6 +946,11 @@ def check(run: common.Run):
             if len(printed) != len(o["spans"]):
                 cli_problems.append({"pattern": pat, "source": text, "printed": printed, "spans": o["spans"]})
                 continue
+            # property oracle for "the command-line finder prints these same locations"
+            for (pl, pc, ptxt), (ml, mc), mstr in zip(printed, o["linecol"], o["strings"]):
+                if (pl, pc) != (ml, mc) or not mstr.startswith(ptxt):
+                    cli_fail.append({"pattern": pat, "source": text, "site": "pattern_matching.main",
+                                     "problem": f"`find` printed {pl}:{pc}: {ptxt!r} for the match at {ml}:{mc} ({mstr!r})"})
             o = dict(o, cli=printed)
             cli_cases.append(o)
     for k in range(0, len(cli_cases), 250):
@@ -988,6 +993,37 @@ def check(run: common.Run):
             if kind == "api" or kind == "cli":
                 item = {k: item[k] for k in ("pattern", "source", "spans", "body", "findall", "search", "match", "fullmatch", "cli")}
             disagreements.append({"kind": kind, "file": p.name, "index": i, "case": item})
+
+    # ---- a digest block that differs is re-run with explicit cases to name the disagreeing input
+    refine_files, refine_decode = [], {}
+    for d in [x for x in disagreements if x["kind"] in ("strdig", "griddig")][:3]:
+        pfx = d["case"]
+        if d["kind"] == "strdig":
+            strings = [pfx + "".join(t) for t in itertools.product(STR_ALPHABET, repeat=2)]
+            pth = wd / f"refine_{len(refine_files)}.v"
+            pth.write_text(HEADER + "Definition cases : list str_case := [\n "
+                           + ";\n ".join(str_case_coq(x, obs_string(core, x)) for x in strings)
+                           + "\n].\nEval vm_compute in (bad_idx str_case_ok cases).\n")
+            refine_decode[pth] = ("str", strings)
+        else:
+            k = min(int(d["file"].split("_")[1]), 2)      # grid_<L>_<i>.v enumerates tails of length min(L, 2)
+            strings = [pfx + "".join(t) for t in itertools.product(GRID_ALPHABET, repeat=k)]
+            body = []
+            for x in strings:
+                obs = [obs_node(core, x, fake_node(decs, a, isd)) for decs, isd in GRID_VARIANTS for a in GRID_ATTRS]
+                body.append(src_case_coq(x, obs))
+            pth = wd / f"refine_{len(refine_files)}.v"
+            pth.write_text(HEADER + "Definition cases : list src_case := [\n " + ";\n ".join(body)
+                           + "\n].\nEval vm_compute in (bad_idx src_case_ok cases).\n")
+            refine_decode[pth] = ("grid", strings)
+        refine_files.append(pth)
+    if refine_files:
+        for pth, (rc, out) in run_case_files(refine_files).items():
+            idx = common.parse_nat_list(out) if rc == 0 else None
+            kind, strings = refine_decode[pth]
+            for i in (idx or [])[:3]:
+                disagreements.insert(0, {"kind": kind + "-refined", "file": pth.name, "index": i, "case": strings[i],
+                                         "impl": repr(obs_string(core, strings[i])) if kind == "str" else "get_charnos grid"})
 
     # ---- deterministic falsification sweep with the property's own oracle
     kf = common.load_findings(PID)
@@ -1046,7 +1082,7 @@ def check(run: common.Run):
             common.log(f"note: known finding {f.id} no longer reproduces")
 
     # ---- verdicts
-    failing = sweep_fail + api_fail
+    failing = sweep_fail + api_fail + cli_fail[:2]
     if (disagreements or cli_problems or (ps.get("props") and not ps["props"]["ok"])) and not failing:
         # failing-input search: seeded random sources through the property oracle
         srnd = random.Random(run.seed + 7919)
@@ -1058,9 +1094,10 @@ def check(run: common.Run):
                 break
         if not failing:
             for s in [gen_source(srnd) for _ in range(60)] + api_family():
+                known = {tuple(f["got_span"]) for f in node_failures(core, s, limit=50) if match_finding(kf, f)}
                 for pat in PATTERNS:
                     o = obs_api(mods, pat, s)
-                    pr = api_oracle(o) if o else None
+                    pr = api_oracle(o, known) if o else None
                     if pr:
                         failing.append({"pattern": pattern_name(pat), "source": s, "problem": pr, "site": "pattern_matching"})
                         break
